@@ -28,7 +28,7 @@ def branch_kind(test):
     return kinds
 
 
-def check_box_selection(ctx, fi):
+def check_box_selection(ctx, fi, P=P):
     """LevelDataStream.__getitem__ / iter"""
     site = fi.site
     idxp = fi.params[1] if len(fi.params) > 1 else "idx"
@@ -81,7 +81,7 @@ def check_box_selection(ctx, fi):
                       f"{bk} selection zips bfiles[{idxp}] with offsets[{idxp}] (same selector on both tables)",
                       f"{bk} selection zips {norm(f)} with {norm(o)}: file and offset are not selected by the "
                       f"same index expression", key=bk, where=loc(fi, z))
-            check_count(ctx, fi, br, bk, s, idxp, z)
+            check_count(ctx, fi, br, bk, s, idxp, z, P)
     ctx.floor(f"{fi.qualname} task constructions", n_tasks, 3)
     # pool primitives
     for s in pools.find_sites(ctx.prog, fi):
@@ -94,7 +94,7 @@ def check_box_selection(ctx, fi):
                   f"{sorted(exp)}", key=s.key, where=loc(fi, s.call))
 
 
-def check_count(ctx, fi, br, bk, rep, idxp, z):
+def check_count(ctx, fi, br, bk, rep, idxp, z, P=P):
     """the selector list repeated `count` times must be as long as the selection"""
     site = fi.site
     env = rules.local_env(ast.Module(body=br.body, type_ignores=[]))
